@@ -38,6 +38,7 @@
 /* #include "global.h" */
 #include "task.h"
 #include "sequence_distance.h"
+#include "bpm.h"
 #include "euclidean_dist.h"
 
 /* #include "alignment.h" */
@@ -121,6 +122,10 @@ int build_tree_kmeans(struct msa* msa, struct aln_tasks** tasks)
                 LOG_MSG("Calculating pairwise distances");
         }
         START_TIMER(timer);
+#ifdef HAVE_AVX2
+        /* once, before any parallel region: d_estimation() also runs inside concurrent tasks */
+        set_broadcast_mask();
+#endif
         RUNP(anchors = pick_anchor(msa, &num_anchors));
 
         RUNP(dm = d_estimation(msa, anchors, num_anchors,0));//les,int pair)
